@@ -8,7 +8,7 @@
 From Coq Require Import NArith ZArith List Bool.
 From F8 Require Import Codec.Bytes Codec.Meta Codec.Extract Codec.Decode Codec.Encode Codec.Render Codec.Example
                        C11.Copy C11.Spec_C11 C11.Hyp C11.Examples C11.WitnessProofs
-                       C11.CopyProofs C11.CountProofs C11.CloneProofs.
+                       C11.CopyProofs C11.CountProofs C11.CloneProofs C11.MoveProofs.
 Import ListNotations.
 Local Open Scope N_scope.
 
@@ -38,6 +38,26 @@ Theorem c11_copy_legal_partial : forall s t0, src_ok s t0 = true ->
             (forall c b, mb_encode c s = Ok b -> mb_encode c t = Ok b).
 Proof. exact c11_copy_legal_lemma. Qed.
 Print Assumptions c11_copy_legal_partial.
+
+(* "moving them leaves the target equal to the original source": move_legal of a source satisfying
+   move_ok (local_ok + fresh target as above; every present group field has its _groups entry; no
+   recursion: the elements are handed over as they are) into a fresh deep object succeeds, returns
+   the number of fields of the object itself (top_fields), the target has the same content and
+   encodes like the original source; the source keeps its trait table (present bits still set), each
+   of its _fields entries holds a null pointer, so does each _groups entry of a present group field,
+   and its _pos is empty (the husk has no _pos component). *)
+Theorem c11_move_legal_partial : forall s t0, move_ok s t0 = true ->
+  exists t k, move_legal false s t0 = Ok (top_fields (obj_of s), t, k) /\
+    same_content (obj_of s) (obj_of t) = true /\
+    (forall c b, mb_encode c s = Ok b -> mb_encode c t = Ok b) /\
+    hk_fp k = mb_fp s /\
+    map fst (hk_fields k) = map fst (mb_fields s) /\
+    (forall f, In f (map fst (mb_fields s)) -> map_find f (hk_fields k) = Some None) /\
+    map fst (hk_groups k) = map fst (mb_groups s) /\
+    (forall f els, map_find f (mb_groups s) = Some els ->
+                   map_find f (hk_groups k) = Some (if group_owned (mb_fp s) f then None else Some els)).
+Proof. exact c11_move_legal_lemma. Qed.
+Print Assumptions c11_move_legal_partial.
 
 (* A message decoded from valid input whose tokens are not in schema order re-encodes in ARRIVAL
    order (the decoder keys _pos by arrival index) whereas its clone encodes in SCHEMA order
@@ -79,3 +99,12 @@ Theorem c11_nonvacuous :
             clone_enc ex_ctx m = hb_inorder_bytes.
 Proof. exact c11_nonvacuous_lemma. Qed.
 Print Assumptions c11_nonvacuous.
+
+(* Non-vacuity of the copy_legal / move_legal theorems: the body of that message (11 fields over
+   three levels) satisfies src_ok and move_ok against a fresh deep object of its class. *)
+Theorem c11_nonvacuous_parts :
+  src_ok (m_body ex_list) (create_group ex_body true) = true /\
+  move_ok (m_body ex_list) (create_group ex_body true) = true /\
+  count_fields (obj_of (m_body ex_list)) = 11.
+Proof. exact c11_nonvacuous_parts_lemma. Qed.
+Print Assumptions c11_nonvacuous_parts.
